@@ -9,7 +9,7 @@ from symx.run import Collector
 from harness import families as F, pipeline as P
 
 HNAME = "harness.relations"
-IDKINDS = ("id", "fname", "macro", "path")
+IDKINDS = ("id", "fname", "macro", "path", "idnp")
 CONTENT_CHARS = ("ABCDEFGHIJKLMNOPQRSTUVWXYZabcdefghijklmnopqrstuvwxyz0123456789"
                  " _+-*/%<>=!&|^~?:;,.(){}[]#@$")
 
@@ -71,6 +71,38 @@ def with_comments(prog, seed, inside=False):
     return p
 
 
+VIOL_OPS_H = ["79_declaration_before_guard", "78b_tag_without_prefix", "39_misaligned_prototype", "78_typedef_without_prefix",
+              "73a_directive_not_indented_in_guard"]
+VIOL_OPS = ["19_misaligned_declaration", "39_misaligned_prototype", "11_no_empty_line_between_functions", "07_double_empty_line",
+            "69_include_after_code", "04_extra_indent_tab", "55_no_space_before_operator", "21_declaration_with_initialisation",
+            "30_space_before_function_name", "12_no_empty_line_after_decls", "66_lowercase_macro", "01_trailing_space",
+            "26_global_without_prefix", "48_return_without_parentheses", "64_comment_in_function", "78_typedef_without_prefix"]
+
+
+def violate(prog, k, op=None):
+    """a violating variant of a conforming program: the k-th applicable (operator, site) of a fixed operator list
+    (or of the given operator)"""
+    from harness import violations as V
+    if op is not None:
+        cands = V.candidates(prog, op)
+        if not cands:
+            return None
+        q = cands[k % len(cands)][0]
+        q.meta = dict(prog.meta, violated=op)
+        return q
+    ops = (VIOL_OPS_H + VIOL_OPS) if prog.name.endswith(".h") else VIOL_OPS
+    if prog.name.endswith(".h"):
+        ops = ops[k % len(VIOL_OPS_H):] + ops[:k % len(VIOL_OPS_H)]
+    for j in range(len(ops)):
+        op = ops[(k + j) % len(ops)] if not prog.name.endswith(".h") else ops[j]
+        cands = V.candidates(prog, op)
+        if cands:
+            q = cands[(k // len(ops)) % len(cands)][0]
+            q.meta = dict(prog.meta, violated=op)
+            return q
+    return prog
+
+
 def strip_header(prog):
     p = prog.clone()
     ls = [l for l in p.lines if l.kind != "header"]
@@ -115,6 +147,9 @@ def _bind_content(slot, ex, tag):
             s.add(z3.Not(z3.And(a.z == ord("*"), b.z == ord("/"))))
         # keep the comment's own delimiters intact: no leading '/', no trailing '*' next to the delimiter
     sv = [v for v in vs if not isinstance(v, str)]
+    if k == "comment" and sv:
+        # the slot may directly follow a '*' of the template ("**<text>"): a leading '/' would close the comment
+        s.add(sv[0].z != ord("/"))
     for a, b, c in zip(sv, sv[1:], sv[2:]):
         # "??/" is the trigraph spelling of a backslash: excluded like the backslash itself
         s.add(z3.Not(z3.And(a.z == ord("?"), b.z == ord("?"), c.z == ord("/"))))
@@ -176,6 +211,7 @@ C17_MICRO = [
     ("a3.h", "#ifndef A3_H\n# define A3_H\n\n# define MSG {S}\n# define CH {C}\n\ntypedef struct s_rec\n{\n\tchar\tname[{C} - {C} + 1];\n\tint\t\tid;\n}\tt_rec;\n\nint\tfn(char *s); /* {K} */\n\n#endif\n"),
     ("a4.c", "int\tfn(char *s)\n{\n\tif (cmp(s, {S}) == 0 && s[0] != {C})\n\t\treturn (len({S}));\n\twhile (s[0] == {C})\n\t\ts++;\n\tput({S}, {C}, s);\n\treturn (0);\n}\n"),
     ("a5.c", "/* {K} */\n#include <unistd.h> // {K}\n\n// {K}\nstatic char\t*g_s = {S}; /* {K} */\n\n/*\n** {K}\n*/\nint\tfn(void)\n{\n\treturn (g_s[0] == {C});\n}\n// {K}\n"),
+    ("a7.c", "/*{K}*/\n#include <unistd.h> /*{K}*/\n\nint\tfn(void); /*{K}*/\n\n/*\n**{K}\n**{K}*/\nint\tfn(void)\n{\n\treturn (0);\n}\n"),
     ("a6.c", "int\tfn(char c)\n{\n\tchar\t*p;\n\n\tp = (char *){S};\n\tp = {S} + 1;\n\tc = {C} + 1;\n\tc = (char){C};\n\tc = -{C};\n\tfoo({S}, {S});\n\treturn (c == {C} || p[0] == {C});\n}\n"),
 ]
 
@@ -205,6 +241,15 @@ def c17_micro(idx):
 # ---------------------------------------------------------------------------------------------- chunks
 def chunks(prop, tier, n):
     out = []
+    if prop in ("C18", "C19"):
+        # every header-specific violation operator on a few header instances (deterministic coverage of the
+        # guard / type-naming / prototype-alignment rules in violating files)
+        for i in ((3, 7, 11) if tier == "quick" else range(3, 60, 4)):
+            for vop in VIOL_OPS_H:
+                if prop == "C18":
+                    out.append(dict(prop=prop, seed=i, kind="h", rot=0, viol=True, vop=vop))
+                else:
+                    out.append(dict(prop=prop, seed=i, kind="h", mode="comment", sub=0, viol=True, vop=vop))
     if prop == "C18":
         for m in range(len(F.micro_programs())):
             out.append(dict(prop=prop, micro=m, seed=m, kind="c", rot=0))
@@ -215,14 +260,14 @@ def chunks(prop, tier, n):
     for i in range(n):
         kind = "h" if i % 4 == 3 else "c"
         if prop == "C19":
-            for mode in ("header", "comment", "comment", "comment", "append"):
+            for mode in ("header", "comment", "append"):
                 if mode == "append" and kind == "h":
                     continue
-                out.append(dict(prop=prop, seed=i, kind=kind, mode=mode, sub=len(out)))
+                out.append(dict(prop=prop, seed=i, kind=kind, mode=mode, sub=len(out), viol=(i % 2 == 1)))
         elif prop == "C17":
-            out.append(dict(prop=prop, seed=i, kind=kind, inside=(i % 3 == 2), rot=i // 4))
+            out.append(dict(prop=prop, seed=i, kind=kind, inside=(i % 3 == 2), rot=i // 4, viol=(i % 4 == 1)))
         else:
-            out.append(dict(prop=prop, seed=i, kind=kind, rot=i % 3))
+            out.append(dict(prop=prop, seed=i, kind=kind, rot=i % 3, viol=(i % 2 == 1)))
     return out
 
 
@@ -246,6 +291,11 @@ def run_chunk(chunk, ctx):
     core.set_run(ex)
     col = Collector(HNAME, seed=ctx["seed"], sample_rate=ctx.get("sample_rate", 0.1))
     prog = F.program(chunk["seed"], ctx["tier"], chunk["kind"])
+    if chunk.get("viol") and "micro" not in chunk:
+        prog = violate(prog, chunk["seed"], chunk.get("vop"))
+        if prog is None:
+            return dict(stats=dict(paths=0, exhaustive=True), validated=0, confirmed=[], unconfirmed=[], n_mismatch=0, mismatches=[],
+                        samples=[], gaps={}, counters={"skipped_operator_not_applicable": 1}, notes={})
     cur = {}
     if prop in ("C18", "C17"):
         if prop == "C18" and "micro" in chunk:
@@ -353,15 +403,15 @@ def run_chunk(chunk, ctx):
             tops = [i for i, l in enumerate(base.lines)
                     if i > 11 and l.kind in ("func_sig", "proto", "utype_open", "include", "define", "global", "blank", "guard_endif")
                     and l.func is None or (l.kind == "func_sig" and i > 11)]
+            # between two empty lines the insertion legitimately separates them (CONSECUTIVE_NEWLINES goes away): not a site
+            tops = [i for i in tops if not (base.lines[i].kind == "blank" and base.lines[i - 1].kind == "blank")]
             if not tops:
                 return dict(stats=dict(paths=0), validated=0, confirmed=[], unconfirmed=[], n_mismatch=0, mismatches=[],
                             samples=[], gaps={}, counters={"skipped_no_boundary": 1}, notes={})
-            b = tops[(chunk["seed"] * 7 + chunk.get("sub", 0)) % len(tops)]
             cs = F.Slot("comment", "xyz"[: 1 + chunk["seed"] % 3])
-            line = F.Line(["/* ", cs, " */"] if chunk["seed"] % 2 else ["// ", cs], "comment")
-            var.lines = var.lines[:b] + [line] + var.lines[b:]
+            cline = F.Line(["/* ", cs, " */"] if chunk["seed"] % 2 else ["// ", cs], "comment")
             ids.add(cs.id)
-            at, by = b + 1, 1
+            at, by = None, 1            # the boundary is solver-chosen inside the path (every top-level boundary)
         else:
             if base.meta.get("nfuncs", 5) >= 5:
                 return dict(stats=dict(paths=0), validated=0, confirmed=[], unconfirmed=[], n_mismatch=0, mismatches=[],
@@ -372,6 +422,7 @@ def run_chunk(chunk, ctx):
             ids |= {s.id for l in fl for s in l.slots() if s.kind in IDKINDS}
             at, by = 10 ** 9, 0
         bound = {}
+        bound_cons = {}
 
         def items_of(p):
             out = []
@@ -381,24 +432,41 @@ def run_chunk(chunk, ctx):
                         out += list(q)
                     elif q.id in ids:
                         if q.id not in bound:
+                            n0 = len(ex.solver.assertions())
                             bound[q.id] = q.bind(ex, "", narrow_first=True)
+                            bound_cons[q.id] = (bound[q.id], list(ex.solver.assertions())[n0:])
                         out += bound[q.id]
                     else:
                         out += list(q.default)
                 out.append("\n")
             return out
-        ia, ib = items_of(base), items_of(var)
+        ia = items_of(base)
+        ib = items_of(var) if mode != "comment" else None
         nbase = len(base.lines)
+        # pre-bind the comment slot so that every boundary shares it
+        if mode == "comment":
+            items_of(F.Prog(prog.name, [cline]))
 
         def body():
             cur.clear()
+            nonlocal_at = at
+            ib_ = ib
+            if mode == "comment":
+                b = tops[core.choose("boundary", len(tops))] if len(tops) > 1 else tops[0]
+                v2 = base.clone()
+                v2.lines = v2.lines[:b] + [cline] + v2.lines[b:]
+                ex.solver.add(*[c for vs, c in bound_cons.values() for c in c])
+                ib_ = items_of(v2)
+                nonlocal_at = b + 1
+            cur["ib"] = ib_
+            cur["at"] = nonlocal_at
             oa = P.run_text(prog.name, SymStr(ia))
-            ob = P.run_text(prog.name, SymStr(ib))
-            res = check_c19(mode, conc(outcome_key(oa)), conc(outcome_key(ob)), at, by, nbase)
+            ob = P.run_text(prog.name, SymStr(ib_))
+            res = check_c19(mode, conc(outcome_key(oa)), conc(outcome_key(ob)), nonlocal_at, by, nbase)
             if res:
                 m = ex.model()
                 col.violation(res[0], res[1], dict(prop="C19", mode=mode, name=prog.name, a=SymStr(ia).concretize(m),
-                                                   b=SymStr(ib).concretize(m), at=at, by=by, nbase=nbase))
+                                                   b=SymStr(ib_).concretize(m), at=nonlocal_at, by=by, nbase=nbase))
                 cur["viol"] = True
             return dict(ok=not res)
 
@@ -410,7 +478,7 @@ def run_chunk(chunk, ctx):
             elif status == "ok" and not cur.get("viol") and col.want_witness():
                 m = ex.model()
                 col.add_witness(dict(prop="C19", mode=mode, name=prog.name, a=SymStr(ia).concretize(m),
-                                     b=SymStr(ib).concretize(m), at=at, by=by, nbase=nbase), dict(ok=True))
+                                     b=SymStr(cur["ib"]).concretize(m), at=cur["at"], by=by, nbase=nbase), dict(ok=True))
     left = max(1.0, min(ctx.get("chunk_time", 60), ctx["deadline"] - time.time()))
     ex.explore(body, on_path=on_path, max_time=left, path_alarm=60.0, max_paths=ctx.get("max_paths"))
     res = col.finish()
